@@ -1,6 +1,7 @@
 package main
 
 import (
+	"fmt"
 	"encoding/hex"
 	"encoding/json"
 	"strings"
@@ -18,6 +19,9 @@ type id62Case struct {
 	Verdict string `json:"verdict"`
 	Back    []int  `json:"back"`
 	Raw     string `json:"raw"`
+	// kind "hash" (spec/Id62Hash.tla): a sequence of NewHash calls (namespace, inputs...) and which results must agree
+	Calls [][]string `json:"calls"`
+	Same  [][]bool   `json:"same"`
 }
 
 // the alphabet the model's digit values are mapped with (big.Int.Text order); drift-only
@@ -125,6 +129,31 @@ func id62Driver(raw json.RawMessage) *Out {
 			"op": "rt", "id": bytesToInts(x[:]), "out": dv, "len": len(s), "match": match,
 			"pok": err == nil, "pval": bytesToInts(back[:]),
 		})
+	case "hash":
+		out.Key = fmt.Sprintf("hash:%q", c.Calls)
+		out.Nontrivial = true
+		ids := make([]id62.UUID, len(c.Calls))
+		for i, a := range c.Calls {
+			if len(a) == 0 {
+				return &Out{Skip: "bad case: call without namespace"}
+			}
+			ids[i] = id62.NewHash(a[0], a[1:]...)
+		}
+		for i := range ids {
+			for j := range ids {
+				if i < len(c.Same) && j < len(c.Same[i]) && (ids[i] == ids[j]) != c.Same[i][j] {
+					out.V("C20|hash-not-a-function-of-its-inputs", "after the calls %q: NewHash%q = %x and NewHash%q = %x; the concatenated arguments are %s",
+						c.Calls[:max(i, j)+1], c.Calls[i], ids[i][:], c.Calls[j], ids[j][:], map[bool]string{true: "equal", false: "different"}[c.Same[i][j]])
+				}
+			}
+		}
+		// and again in reverse order: a repeated call repeats its identifier
+		for i := len(c.Calls) - 1; i >= 0; i-- {
+			if again := id62.NewHash(c.Calls[i][0], c.Calls[i][1:]...); again != ids[i] {
+				out.V("C20|hash-impure", "NewHash%q returned %x, later %x", c.Calls[i], ids[i][:], again[:])
+			}
+		}
+		return out
 	case "str", "raw":
 		var s string
 		if c.Kind == "raw" {
